@@ -783,7 +783,9 @@ def enabled_ops(s, hist):
     ops = []
     muts = init["muts"]
     for m in muts[_por_start(init, hist) :]:
-        if not (m == "F" and s.frozen):
+        # once frozen: no second freeze; grid pitch/offset are not parameters, the read-only clause
+        # does not speak about them
+        if not (s.frozen and m in ("F", "G")):
             ops.append([m])
     openi = {fr["i"] for fr in s.stack}
     if len(s.stack) < min(MAXNEST, init.get("maxnest", MAXNEST)):
